@@ -64,8 +64,8 @@ def run(ctx):
                    % (c["model"], c["variant"], c["style"], law, ev.get("t"), json.dumps(ev.get("raw"))[:600], c["params"]),
                    {"event": ev, "case": c})
     ctx.notes["failing_timesteps"] = len(viols)
-    ctx.notes["rule"] = ("cases = (model x seeded parameter vector in the physical ranges x seeded rainfall/PET series of one of five styles: mixed, "
-                         "dry spells, storms, drizzle, no PET; GR4J additionally in the variants closure / losing / any exchange); evaluations = timesteps "
+    ctx.notes["rule"] = ("cases = (model x seeded parameter vector in the physical ranges x seeded rainfall/PET series of one of six styles: mixed, "
+                         "dry spells, storms, drizzle, no PET, sustained wet; GR4J additionally in the variants closure / losing / any exchange); evaluations = timesteps "
                          "judged by TLC against the six laws of TraceRunoff.tla; distinct_nontrivial = cases")
     # binding self-test: a store pushed above its capacity must be reported
     ks = [i for i, e in enumerate(evs) if e["ev"] == "step" and e["stores"]]
